@@ -17,7 +17,7 @@ import warnings
 import numpy as np
 
 from sim.kernel import EventLog, PlanRng, Violation, call, sig
-from sim.seams import SolveSeam, import_dreye
+from sim.seams import own_entropy, SolveSeam, import_dreye
 
 ID = "C05"
 PANEL_PER_MODE = 3
@@ -344,6 +344,7 @@ def batch_class(n, bs):
 
 def execute(plan):
     setup()
+    own_entropy(plan["run_seed"])
     import cvxpy as cp  # noqa: F401
     log = EventLog()
     counters = {}
